@@ -96,13 +96,27 @@ target("netgen", ["common/netgen.cpp"])
 target("refperft", ["common/refperft.cpp"], nolib=True)
 
 
-for _c in ("c01",):
-    target(_c, COMMON + ["harness/%s.cpp" % _c], libs=RC)
+def discover_targets():
+    """Every src/harness/*.cpp is a rapidcheck harness target named after the
+    file; every src/fuzz/*.cpp is a libFuzzer target (fuzz variant only).  A line
+    `// VERIF-TARGET: app main norc extra=common/foo.cpp` in the first lines of
+    the file adjusts the defaults (app: link app/texel objects except texel.cpp;
+    main: link texel.cpp as well; norc: do not link rapidcheck)."""
+    for sub, fuzzer in (("harness", False), ("fuzz", True)):
+        for f in sorted(glob.glob(os.path.join(VERIF, "src", sub, "*.cpp"))):
+            name = os.path.basename(f)[:-4]
+            opts = []
+            with open(f, errors="replace") as fh:
+                for _ in range(15):
+                    line = fh.readline()
+                    if "VERIF-TARGET:" in line:
+                        opts = line.split("VERIF-TARGET:", 1)[1].split()
+            extra = [o.split("=", 1)[1] for o in opts if o.startswith("extra=")]
+            target(name, COMMON + extra + ["%s/%s.cpp" % (sub, name)], app="app" in opts, main="main" in opts,
+                   libs="" if ("norc" in opts or fuzzer) else RC, fuzzer=fuzzer)
 
 
-def load_targets():
-    """checks/*.py may register more targets through build.target()."""
-    pass
+discover_targets()
 
 
 def obj_name(rel):
